@@ -9,24 +9,31 @@ Definition xRow (s : sx) : list (option Z) := map xOptZ (xL s).
 Definition xMat (s : sx) : list (list (option Z)) := map xRow (xL s).
 Definition oPath (p : list nat) : sx := L (map oN p).
 
-Definition xMev (s : sx) : mev * Z :=
-  let t := xZ (xnth 2 s) in
+Definition xMev (s : sx) : mev :=
   match xZ (xnth 0 s) with
-  | 0 => (Rest, t)
-  | 1 => (Onset (xZ (xnth 1 s)), t)
-  | _ => (Sustain (xZ (xnth 1 s)), t)
+  | 0 => Rest
+  | 1 => Onset (xZ (xnth 1 s))
+  | _ => Sustain (xZ (xnth 1 s))
   end.
+Definition oMev (e : mev) : sx :=
+  match e with
+  | Rest => L [I 0; I 0]
+  | Onset p => L [I 1; I p]
+  | Sustain p => L [I 2; I p]
+  end.
+Definition oPairs (l : list (Z * Z)) : sx := L (map (fun tf => L [I (fst tf); I (snd tf)]) l).
 
 Definition run (s : sx) : sx :=
   let a := fun n => xnth n s in
   match xZ (a 0%nat) with
-  | 1 => (* melody viterbi: cols emit0 frames(t>=1) -> (path score) *)
+  | 1 => (* melody viterbi: cols emit0 frames(t>=1) pitches -> (path score events) *)
       let cols := xMat (a 1%nat) in
       let init := melody_init cols (xRow (a 2%nat)) in
       let frames := xMat (a 3%nat) in
       let p := viterbi_x init cols frames in
-      L [oPath p; oOptZ (score_x init cols (rev frames) (rev p))]
-  | 2 => (* chord viterbi: nkeys kc cols frames(t>=0) *)
+      L [oPath p; oOptZ (score_x init cols (rev frames) (rev p));
+         L (map (fun i => oMev (index_to_event (xZs (a 4%nat)) i)) p)]
+  | 2 => (* chord viterbi: nkeys kc cols frames(t>=0) -> (path score) *)
       let nkeys := xN (a 1%nat) in
       let kc := xMat (a 2%nat) in
       let cols := xMat (a 3%nat) in
@@ -35,13 +42,22 @@ Definition run (s : sx) : sx :=
       let frames := chord_frames nkeys (tl fr) in
       let p := viterbi_x init cols frames in
       L [oPath p; oOptZ (score_x init cols (rev frames) (rev p))]
-  | 3 => (* chord writer: ((time figure)...) *)
-      L (map (fun tf => L [I (fst tf); I (snd tf)])
-             (write_chords None (map (fun r => (xZ (xnth 0 r), xZ (xnth 1 r))) (xL (a 1%nat)))))
-  | 4 => (* melody writer: ((kind pitch time)...) total *)
-      match write_melody None (map xMev (xL (a 1%nat))) (xZ (a 2%nat)) with
-      | Some ns => oOk (L (map (fun n => L [I (m_start n); I (m_end n); I (m_pitch n)]) ns))
+  | 3 => (* chord writer: mode(0 fixed | 1 beats) spc-or-beats total figs keys -> (chords keys times) *)
+      let figs := xZs (a 4%nat) in
+      let times := match xZ (a 1%nat) with
+                   | 0 => frame_times_fixed (xZ (a 2%nat)) (length figs)
+                   | _ => frame_times_beats (xZs (a 2%nat)) (xZ (a 3%nat))
+                   end in
+      L [oPairs (chords_written times figs); oPairs (chords_written times (xZs (a 5%nat))); oZs times]
+  | 4 => (* melody writer: events starts ends total -> notes | assertion failure *)
+      let total := xZ (a 4%nat) in
+      let et := event_times (xZs (a 2%nat)) (xZs (a 3%nat)) total in
+      match melody_written (map xMev (xL (a 1%nat))) et total with
+      | Some ns => oOk (L [L (map (fun n => L [I (m_start n); I (m_end n); I (m_pitch n)]) ns); oZs et])
       | None => oErr 1
       end
+  | 5 => (* plain-integer instance of the same generic Viterbi: cols init frames -> path *)
+      let z := fun m => map xZs (xL m) in
+      oPath (viterbi_z (xZs (a 2%nat)) (z (a 1%nat)) (z (a 3%nat)))
   | _ => oErr 0
   end.
